@@ -55,7 +55,7 @@ CHECKS["C15"] = {
     "quick_fs": ["default"],
     "thorough_fs": ["default", "both"],
     "technique": "abstract interpretation of update_many / update / best_code / add / += / + / sum / Default with the length functions replaced by tokens (uninterpreted functions recording family and parameter) on statistics with 4/5/3/4/3 array slots; MIR path rule for the wrapper's locking discipline; structural rules as the fallback when the interpreter refuses the code",
-    "claim": "Decided by interpreting the methods themselves, so loops, iterator adaptors, macros and helpers are all the same: Default zeroes every slot; update_many(n, count) adds count to total, (n+1)*count to unary and len_F(n, p)*count to every other slot, where F is a length function of the slot's family applied to n, and (F, p) is exactly the code best_code reports when that slot holds the unique minimum (so totals are kept for the code they are reported for); update(n) = update_many(n, 1) and returns n; best_code returns the slot's code and the minimum for every slot in turn; add, +=, + and sum (of three, of none) give slot-wise sums and leave the right-hand side alone. The wrapper updates exactly once per successful read/write, with the value read / written, through Mutex::lock, after the operation and never on its error path. Exactness of the length functions themselves is C06; thread-safety rests on Mutex (std).",
+    "claim": "Decided by interpreting the methods themselves, so loops, iterator adaptors, macros and helpers are all the same: Default zeroes every slot; update_many(n, count) adds count to total, (n+1)*count to unary and len_F(n, p)*count to every other slot, where F is a length function of the slot's family applied to n, and (F, p) is exactly the code best_code reports when that slot holds the unique minimum (so totals are kept for the code they are reported for); update(n) = update_many(n, 1) and returns n; best_code returns the slot's code and the minimum for every slot in turn; add, +=, + and sum (of three, of none) give slot-wise sums and leave the right-hand side alone. The wrapper updates exactly once per successful read/write, with the value read / written, through Mutex::lock, after the operation and never on its error path. Exactness of the length functions themselves is C06; thread-safety rests on Mutex (std). Thorough tier: also with the library's default array sizes (10/20/10/10/10) and with degenerate ones (1/2/0/1/1).",
     "note": "Trusted: rustc MIR, exporter, field table of DESIGN.md appendix A.3, std Mutex contract.",
     "explanation": "Methods of CodesStats interpreted with length functions as tokens against the slot-wise model; locking discipline structural.",
 }
@@ -77,7 +77,7 @@ CHECKS["C13"] = {
     "quick_fs": ["default"],
     "thorough_fs": ["default", "both"],
     "technique": "abstract interpretation (value-partition interpreter over the exported MIR) of every method of the four word streams on storages of 0..=3 words x every cursor / argument cell, compared with the array-plus-cursor model",
-    "claim": "For the four in-memory word streams, read_word / write_word / word_pos / set_word_pos / len are interpreted (helpers included, whatever the shape of the code) on storages of 0, 1, 2 and 3 pairwise different words, for every cursor position up to two beyond the end as singletons and all farther positions as one cell (set_word_pos: for every argument cell likewise): the result, the cursor afterwards and the storage afterwards equal what the array-plus-cursor model of the property prescribes - the word under the cursor and cursor+1; an error and nothing changed beyond the end of a strict stream or fixed slice; zero and cursor+1 beyond the end of the zero-extended reader; zero-filled growth to cursor+1 then the store for the vector; the cursor set to any accepted position (<= length; any for the zero-extended reader), an error and the old cursor otherwise. Per-call effects on (array, cursor) compose to every call sequence. Bounded in the storage length (<= 3 words): the methods use the length only through len()/get()/indexing, which the interpreter decides exactly in every cell.",
+    "claim": "For the four in-memory word streams, read_word / write_word / word_pos / set_word_pos / len are interpreted (helpers included, whatever the shape of the code) on storages of 0, 1, 2 and 3 pairwise different words, for every cursor position up to two beyond the end as singletons and all farther positions as one cell (set_word_pos: for every argument cell likewise): the result, the cursor afterwards and the storage afterwards equal what the array-plus-cursor model of the property prescribes - the word under the cursor and cursor+1; an error and nothing changed beyond the end of a strict stream or fixed slice; zero and cursor+1 beyond the end of the zero-extended reader; zero-filled growth to cursor+1 then the store for the vector; the cursor set to any accepted position (<= length; any for the zero-extended reader), an error and the old cursor otherwise. Per-call effects on (array, cursor) compose to every call sequence. Bounded in the storage length (<= 3 words): the methods use the length only through len()/get()/indexing, which the interpreter decides exactly in every cell. Thorough tier: storages of 0..=6 words.",
     "note": "Trusted: AsRef/AsMut/Deref on the storage parameter are identity views (std docs); std slice/Vec operations as documented; the interpreter sa/ivl.py; rustc MIR, exporter.",
     "explanation": "Every method interpreted on small storages and every cursor cell against the array+cursor model.",
 }
